@@ -19,7 +19,7 @@ def strip_int(e: ast.AST) -> ast.AST:
     return e
 
 
-def check(ctx: Ctx) -> None:
+def _main_check(ctx: Ctx) -> None:
     bar_rules(ctx, explain=True)
     # the bar's duration is made by RelativeSequence.pad: its measuring/padding rules (same as C18)
     from .c18 import _check as c18_rules
@@ -318,3 +318,9 @@ def bar_copy(ctx: Ctx) -> None:
         e = supplied.get(prm)
         ctx.check(e is not None and _mentions_attr(cp.node, e, attr, "Bar"), "COPY", f"Bar.copy passes {attr}", function=cp.qualname,
                   construct=f"Bar.copy does not pass `{attr}` on", message=f"supplied: `{short(e)}`", file=cp.file, node=ctor)
+
+
+def check(ctx: Ctx) -> None:
+    _main_check(ctx)
+    from .common import view_deps
+    view_deps(ctx)
